@@ -490,6 +490,8 @@ func c01balEmit(c *hx.Ctx, cs c01balCase) error {
 	perms := [3][]int{rnd.Perm(lens[0]), rnd.Perm(lens[1]), rnd.Perm(lens[2])}
 
 	c.Line(fmt.Sprintf("new %d %d %d %d", prev, tot[0], tot[1], tot[2]), "ok")
+	csJson, _ := json.Marshal(cs)
+	c.Line("case "+string(csJson), "ok") // {"replay": <this>} in a file re-runs the case with --replay
 	for k := 0; k < 3; k++ {
 		c.Line(fmt.Sprintf("cnt %d %s", k, c01balMapToken(maps[k])), "ok")
 	}
@@ -541,6 +543,19 @@ func c01balEmit(c *hx.Ctx, cs c01balCase) error {
 		c.Fail("C01:balance-replicas-differ", "second replica: "+resB.failed, cs)
 		return nil
 	}
+	if c.Replay != "" {
+		// a replay builds four more replicas: an order-dependent result shows with two replicas only now and then
+		for k := int64(3); k < 7 && resA.root == resB.root; k++ {
+			appC, err := c01balBuild(cs, pop, mods, fresh, rand.New(rand.NewSource(cs.Gen+k)))
+			if err != nil {
+				return err
+			}
+			if resC := c01balCall(appC, tot, c01balCopyMaps(maps, rand.New(rand.NewSource(cs.Gen+10+k)))); resC.failed == "" {
+				resB = resC
+			}
+			c.Rep.Evaluations++
+		}
+	}
 	if resA.root != resB.root || resA.num != resB.num || resA.thr != resB.thr || fmt.Sprint(resA.sizes) != fmt.Sprint(resB.sizes) || len(resA.order) != len(resB.order) {
 		c.Fail("C01:balance-replicas-differ", fmt.Sprintf("two app states with the same identities (inserted in different orders): root %x / %x, shards %d / %d, threshold %s / %s, sizes %v / %v",
 			resA.root[:6], resB.root[:6], resA.num, resB.num, resA.thr, resB.thr, resA.sizes, resB.sizes), cs)
@@ -580,6 +595,16 @@ func c01balEmit(c *hx.Ctx, cs c01balCase) error {
 		}
 		if sum != total {
 			c.Fail("C01:balance-size-mismatch", fmt.Sprintf("recorded shard sizes sum to %d, %d identities were counted", sum, total), cs)
+		}
+		// observation only (not a C01 matter, no theorem): the remainder loops share one shard id, so sizes differ by at most one
+		lo, hi := total, 0
+		for _, sz := range resA.sizes {
+			lo, hi = min(lo, sz), max(hi, sz)
+		}
+		if hi-lo <= 1 {
+			c.Hit("sizes-within-one")
+		} else {
+			c.Hit("sizes-apart-more-than-one")
 		}
 	}
 	if cs.Layout == "witness" {
